@@ -9,8 +9,9 @@ import warnings
 def replay(check: str, kernel: str, shape: dict, assignment: dict, label: str) -> int:
     import pulser
 
-    assert pulser.__file__.startswith("/repo/"), pulser.__file__
     from symx import core
+
+    assert pulser.__file__.startswith(core.REPO_ROOT + "/"), pulser.__file__
 
     warnings.simplefilter("ignore")
     mod = importlib.import_module(check)
